@@ -14,7 +14,7 @@ import itertools
 from ..core.pool import pmap, rotate
 from ..explore.bfs import explore, replay_path
 from ..sim.driver import elaborate, walk_state
-from ..ref.c03_model import Model, WRAPPERS, KINDS
+from ..ref.c03_model import Model, WRAPPERS, KINDS, CONTROLS
 
 ID = "C03"
 LEVEL = "model_checking"
@@ -31,6 +31,7 @@ class Sys3:
         self._regs_obs = Cat(*regs, obs)         # obs: combinational observation, read together with the registers
         self._regw = sum(len(r) for r in regs)
         self.last_obs = None
+        self._cache = None
         self.regs, self.md = list(regs), md
         self.clocks, self.arsts, self.sync_inputs = list(clocks), list(arsts), list(sync_inputs)
         self._regs = Cat(*self.regs)
@@ -42,15 +43,21 @@ class Sys3:
         self._known_rows = None
 
     def read(self):
+        """the explorer reads the state right after step() did: no need to evaluate everything twice"""
+        return self._cache if self._cache is not None else self.fresh_read()
+
+    def fresh_read(self):
         g = self.ctx.get
         rows = tuple(int(g(r)) for r in self.rows)
         self._known_rows = rows
         x = g(self._regs_obs)
         self.last_obs = x >> self._regw
-        return (x & ((1 << self._regw) - 1), rows, g(self._lv))
+        self._cache = (x & ((1 << self._regw) - 1), rows, g(self._lv))
+        return self._cache
 
     def load(self, state):
         regs, rows, lv = state
+        self._cache = None
         s = self.ctx.set
         s(self._lv, lv)
         s(self._regs, regs)
@@ -100,25 +107,26 @@ class C03Spec:
             cds[name] = ClockDomain(name, clk_edge=edge, async_reset=(rk == "async"), reset_less=(rk == "none"))
         ini = mdl.inits
         d = Signal(name="d")
-        ctl = {n: Signal(name=n) for n in ("r1", "r2", "e1", "e2")}
+        ctl = {n: Signal(name=n) for n in CONTROLS}
         cnt = Signal(2, init=ini["cnt"], name="cnt")
         rl = Signal(1, init=ini["rl"], reset_less=True, name="rl")
         # signed on purpose: its sign bit belongs to another module / domain than bit 0
         sp = Signal(signed(2), init=ini["sp0"] | (ini["sp1"] << 1), name="sp")
         cntb = Signal(2, init=ini.get("cntb", 0), name="cntb")
         rlb = Signal(1, init=ini.get("rlb", 0), reset_less=True, name="rlb")
+        sq = Signal(2, init=ini["sq0"] | (ini["sq1"] << 1), name="sq")      # split between two domains inside ONE module
         obs = Signal(2, name="obs")
         box = {}
         logic_b = cfg["logic_b"]
 
         def wrapper(w):
-            kind, c, doms = WRAPPERS[w]
+            kind, named = WRAPPERS[w]
             if kind == "rename":
-                return DomainRenamer("other") if w == "DR" else DomainRenamer(dict(doms))
+                return DomainRenamer("other") if w == "DR" else DomainRenamer(dict(named))
             cls = ResetInserter if kind == "reset" else EnableInserter
-            if doms == ("sync",):
-                return cls(ctl[c])                       # short form: the sync domain only
-            return cls({dn: ctl[c] for dn in doms if dn in cfg["doms"]})
+            if w in ("R1", "E1"):
+                return cls(ctl[named["sync"]])           # short form: the sync domain only
+            return cls({dn: ctl[c] for dn, c in named.items() if dn in cfg["doms"]})
 
         def wrap(e, ws):
             for w in ws:
@@ -149,7 +157,8 @@ class C03Spec:
                     m.d.sync += cnt.eq(cnt + 1)
                 m.d.sync += Cat(rl, sp)[0:2].eq(~Cat(rl, sp)[0:2])
                 if logic_b:
-                    m.d.other += [cntb.eq(cntb + 1), rlb.eq(~rlb)]
+                    m.d.other += [cntb.eq(cntb + 1), rlb.eq(~rlb), sq[1].eq(~sq[1])]
+                    m.d.sync += sq[0].eq(~sq[0])
                 m.submodules.leaf = wrap(Leaf(), cfg["sub"])
                 return m
 
@@ -159,7 +168,7 @@ class C03Spec:
         top.submodules.core = wrap(Core(), cfg["top"])
         frag = elaborate(top)
         rdata = box["rp"].data
-        regs = [cnt, rl, sp] + ([cntb, rlb] if logic_b else []) + [rdata]
+        regs = [cnt, rl, sp] + ([cntb, rlb, sq] if logic_b else []) + [rdata]
         found, mems = walk_state(frag)
         clocks = [cds[n].clk for n in mdl.dom_names]
         arsts = [cds[n].rst for n in mdl.arst_doms]
@@ -185,7 +194,7 @@ class C03Spec:
             ctx.set(sysm._clk, lv2 & mdl.clk_mask)
         else:
             ctx.set(sysm.arsts[arg], (lv2 >> (mdl.nclk + arg)) & 1)
-        got = sysm.read()
+        got = sysm.fresh_read()
         want_obs = mdl.expected_obs(inp, lv2)
         if got in allowed and sysm.last_obs == want_obs:
             return got, [], flags
@@ -211,13 +220,32 @@ def configs(rep):
     out = []
     one = ["R1", "R2", "E1", "E2"]
     full = one + ["DR"]
+    # family M (first: its graphs are the largest): inserters with a DISTINCT control per domain (R3, E3) around ONE module
+    # that holds registers of both domains and a signal split between them
+    none2 = {"sync": ("pos", "none"), "other": ("neg", "none")}
+    none_sync = {"sync": ("pos", "none"), "other": ("neg", "sync")}
+    pair0 = {"sync": ("pos", "sync"), "other": ("neg", "async")}
+    if rep.quick:
+        for n in (2, 1):
+            for seq in itertools.product(["R3", "E3"], repeat=n):
+                out.append({"doms": none2, "top": list(seq), "sub": [], "logic_b": True})
+        for w in ("R3", "E3"):
+            out.append({"doms": none_sync, "top": [w], "sub": [], "logic_b": True})
+    else:
+        for pair in (pair0, none_sync, none2):
+            for sub, top in sorted(nestings(["R3", "E3"], 2), key=lambda st: (-len(st[0] + st[1]), -len(st[0]))):
+                if sub or top:
+                    out.append({"doms": pair, "top": top, "sub": sub, "logic_b": True})
+        for w in ("R3", "E3"):
+            for o in full + ["DX"]:
+                out.append({"doms": none2, "top": [w, o], "sub": [], "logic_b": True})
+                out.append({"doms": none2, "top": [o, w], "sub": [], "logic_b": True})
     # family D: every combination of domain kinds, no wrappers
     for ka in KINDS:
         out.append({"doms": {"sync": ka}, "top": [], "sub": [], "logic_b": False})
         for kb in KINDS:
             out.append({"doms": {"sync": ka, "other": kb}, "top": [], "sub": [], "logic_b": True})
     # family W: every nesting of wrappers at the top / at the submodule
-    pair0 = {"sync": ("pos", "sync"), "other": ("neg", "async")}
     for sub, top in nestings(full, rep.pick(2, 3)):
         if sub or top:
             out.append({"doms": pair0, "top": top, "sub": sub, "logic_b": False})
@@ -274,7 +302,9 @@ NEED = ["active_edge", "inactive_edge", "simultaneous_active_edges", "other_doma
         "inserted_reset_applied", "inserted_reset_frozen_by_outer_enable", "inserted_reset_not_frozen_by_inner_enable",
         "inserted_reset_skips_reset_less", "two_resets_or", "two_enables_and", "enable_freezes_update",
         "domain_reset_overrides_enable", "mem_write", "mem_write_gated_by_enable", "mem_read", "mem_read_gated_by_enable",
-        "mem_ports_renamed", "renamed_logic_clocked_by_target", "partial_signal_reset", "reset_less_domain_edge"]
+        "mem_ports_renamed", "renamed_logic_clocked_by_target", "partial_signal_reset", "reset_less_domain_edge",
+        "per_domain_reset_applied", "per_domain_enable_freezes", "idle_domain_reset_control_asserted",
+        "idle_domain_enable_control_deasserted"]
 
 
 def run(rep):
@@ -288,6 +318,8 @@ def run(rep):
         rep.add("traces_validated_against_impl", r["validated"])
         rep.add("designs", 1)
         rep.add("designs_with_wrappers" if (r["cfg"]["top"] or r["cfg"]["sub"]) else "designs_domain_kinds_only", 1)
+        if {"R3", "E3"} & set(r["cfg"]["top"] + r["cfg"]["sub"]):
+            rep.add("designs_with_per_domain_controls", 1)
         allflags.update(r["flags"])
         if r["capped"]:
             rep.add("capped_designs", 1)
@@ -307,13 +339,16 @@ def run(rep):
                     "bfs_depth": r["depth"], "wall_s": r["wall"]}, limit=40)
     rep.setcov("exhaustive", rep.cov.get("capped_designs", 0) == 0)
     rep.setcov("flags_seen", sorted(allflags))
-    rep.setcov("wrapper_alphabet", {k: f"{v[0]}:{v[1]} on {v[2]}" for k, v in WRAPPERS.items()})
+    rep.setcov("wrapper_alphabet", {k: f"{v[0]} {v[1]}" for k, v in WRAPPERS.items()})
     rep.setcov("rule", "for every design: full reachable product graph of (real simulated registers, memory rows, read-port data, "
                "clock levels, asynchronous-reset levels) x register-level model; every state expanded with every valuation of "
                "{data bit, inserted controls, synchronous domain resets} followed by every single level event (toggle of any "
                "non-empty subset of clocks at once | flip of one asynchronous reset); complete state compared after every event. "
                "Designs: all 6 single-domain and all 36 two-domain kind combinations (pos/neg x sync/async/reset-less) without "
-               "wrappers; " + rep.pick(
+               "wrappers; inserters with a distinct control per domain (R3, E3) around one module holding registers of both "
+               "domains and a split signal: " + rep.pick("every top nesting of <= 2 over two reset-less domains, single ones over a "
+               "reset-less + sync-reset pair", "every (submodule, top) nesting of <= 2 over 3 domain pairs and every pair with one other wrapper") + "; "
+               + rep.pick(
                    "every (submodule, top) nesting of <= 2 wrappers from {R1,R2,E1,E2,DR} over the domain pair sync=pos/sync-reset, "
                    "other=neg/async-reset",
                    "every (submodule, top) nesting of <= 3 wrappers from {R1,R2,E1,E2,DR} over the domain pair sync=pos/sync-reset, "
